@@ -41,7 +41,7 @@ pub fn def() -> PropDef {
         quick_runs: 12000,
         thorough_runs: 300_000,
         level: "exploration",
-        rule: "a live daemon (2 rings; Mutex or RwLock backend adapter; VringMutex or VringRwLock) driven by the real Frontend through 1..12 of {SET_VRING_NUM 0..=65535 (boundaries 0,1,2,3,255,256,257,512,65535, powers of two, random), SET_VRING_BASE, SET_VRING_ADDR with address triples inside the mapped regions and a guest-written used index 0..=65535, GET_VRING_BASE, guest kick (samples the queue inside handle_event, then add_used + signal_used_queue), SET_FEATURES with masks relative to a drawn offered mask, SET_VRING_CALL/KICK replacement, memory-table replacement, a per-ring message with ring index num_queues..=255, SET_BACKEND_REQ_FD followed by a proxy request}; the reference ring record is compared with the sampled queue accessors, GET_VRING_BASE results, acked_features/set_event_idx callbacks, used-ring bytes in the memfd of the latest table and the counter of the latest call eventfd; rejected messages end the connection, which is re-established; non-trivial = history has >= 2 steps",
+        rule: "a live daemon (2 rings; Mutex or RwLock backend adapter; VringMutex or VringRwLock) driven by the real Frontend through 1..12 of {SET_VRING_NUM 0..=65535 (boundaries 0,1,2,3,255,256,257,512,65535, powers of two, random), SET_VRING_BASE, SET_VRING_ADDR with address triples inside the mapped regions and a guest-written used index 0..=65535, GET_VRING_BASE, guest kick (samples the queue inside handle_event, then add_used + signal_used_queue), SET_FEATURES with masks relative to a drawn offered mask, SET_VRING_CALL/KICK replacement, memory-table replacement, a per-ring message with ring index num_queues..=255 (and 256..=955 on the messages whose index is 32 bits wide), SET_BACKEND_REQ_FD followed by a proxy request}; the reference ring record is compared with the sampled queue accessors, GET_VRING_BASE results, acked_features/set_event_idx callbacks, used-ring bytes in the memfd of the latest table and the counter of the latest call eventfd; rejected messages end the connection, which is re-established; non-trivial = history has >= 2 steps",
         assumptions: ASSUME,
         real: REAL_D,
         stubs: STUB_D,
@@ -130,7 +130,7 @@ fn run_v<V: VringT<GM<()>> + Clone + Send + Sync + 'static>(sim: &Sim, _cfg: &Ru
                 10 => Op::SetCall(r),
                 11 => Op::SetKick(r),
                 12 => Op::ReplaceTable,
-                13 => Op::BadIndex(t.draw(8) as u8, nrings + t.draw(254) as usize),
+                13 => Op::BadIndex(t.draw(8) as u8, nrings + if t.chance(1, 3) { 254 + t.draw(700) } else { t.draw(254) } as usize),
                 14 => Op::BackendReq,
                 _ => Op::Kick(r),
             });
@@ -193,7 +193,7 @@ fn run_v<V: VringT<GM<()>> + Clone + Send + Sync + 'static>(sim: &Sim, _cfg: &Ru
         .collect();
     // (re)connect: negotiate, install the table, (re)start every ring
     let connect = |daemon: &mut AnyDaemon<V, ()>, listener: &mut Listener, pool: &FilePool, table: &[GRegion], kickfds: &[EventFd], acked: u64, m: &mut Vec<RingM>| -> Vmm {
-        let mut vmm = connect_and_start(sim, daemon, listener, &path, 256).expect("start");
+        let mut vmm = connect_and_start(sim, daemon, listener, &path, 1024).expect("start");
         let _ = vmm.fe.get_features().expect("get_features");
         let _ = vmm.fe.get_protocol_features().expect("get_protocol_features");
         vmm.fe.set_protocol_features(VhostUserProtocolFeatures::from_bits_retain(protos)).expect("set_protocol_features");
@@ -352,6 +352,9 @@ fn run_v<V: VringT<GM<()>> + Clone + Send + Sync + 'static>(sim: &Sim, _cfg: &Ru
                     avail_ring_addr: table[0].uva + 0x1000,
                     log_addr: None,
                 };
+                // the descriptor-carrying messages encode the ring index in 8 bits
+                let idx8 = nrings + (*idx - nrings) % 254;
+                let idx = if (4..=6).contains(kind) { &idx8 } else { idx };
                 let (name, res) = match kind {
                     0 => ("SET_VRING_NUM", vmm.fe.set_vring_num(*idx, 64)),
                     1 => ("SET_VRING_BASE", vmm.fe.set_vring_base(*idx, 1)),
